@@ -389,6 +389,12 @@ func (fr *FnRun) indexVal(x Val, i *Term, env *Env) Val {
 		return ex.readElem(env.st, v.Data, v.Elem, i)
 	case *PtrV:
 		return fr.indexVal(ex.load(env.st, v), i, env)
+	case *MapV:
+		if v.Nil.IsTrue() || v.Obj == nil {
+			panic(abortf("contract: index of a nil map"))
+		}
+		mo := fr.mapObj(env.st, v)
+		return ex.readElem(env.st, mo.Val, v.V, i)
 	case *Term:
 		if v.Sort.IsArr() {
 			return Select(v, i)
@@ -469,6 +475,17 @@ func (fr *FnRun) evalCall(e *Expr, env *Env) Val {
 			return fr.mapLen(env.st, v)
 		}
 		panic(abortf("contract: len of %T", arg(0)))
+	case "has":
+		// has(m, k): the map m holds key k
+		need(2)
+		mv, ok := ex.force(env.st, arg(0)).(*MapV)
+		if !ok {
+			panic(abortf("contract: has() of %T", arg(0)))
+		}
+		if mv.Nil.IsTrue() || mv.Obj == nil {
+			return tFalse
+		}
+		return And(Not(mv.Nil), Select(fr.mapObj(env.st, mv).Has, targ(1)))
 	case "cap":
 		need(1)
 		if v, ok := ex.force(env.st, arg(0)).(*SliceV); ok {
